@@ -192,48 +192,35 @@ def executor_calls(db, row, method="execute"):
     return out
 
 
-FULL_TYPES = ("glaredb_core::arrays::datatype::DataType", "glaredb_core::arrays::datatype::DecimalTypeMeta",
-              "glaredb_core::arrays::datatype::TimestampTypeMeta", "glaredb_core::arrays::datatype::ListTypeMeta")
-CAST_CTORS = ("glaredb_core::expr::cast", "CastExpr::new", "cast_expr::CastExpr::try_new")
-
-
-def rule_elide(facts):
+def rule_elide(facts, rule="C18-ELIDE", only=None, floor=10):
     """Binder/planner code that inserts a cast only when `have != need` decides whether the produced arrays carry the announced
-    type. The comparison has to be on the full DataType (id + precision/scale/unit/element type): comparing DataTypeId (or any
-    other projection) elides the cast between Decimal(6,2) and Decimal(5,1), and the branch then produces arrays whose type
-    differs from the announced schema. The cast must also sit on the `differs` edge."""
-    from .mir import controlling_calls
-    r = RuleResult("C18-ELIDE", "every conditional cast insertion is controlled by a full DataType (or full type-meta) inequality, on the "
-                   "differs edge", floor=8)
+    type. Every path on which a type comparison decided to skip the cast must have established equality of the full DataType (id +
+    precision/scale/unit/element type) or of the full type meta: comparing DataTypeId, or only one of precision/scale, elides the
+    cast between Decimal(6,2) and Decimal(5,1) and the branch then produces arrays whose type differs from the announced schema.
+    Path-sensitive (rules/elide.py): `||`/`&&` chains, negations and bool-returning helper functions are followed."""
+    from .elide import Elide
+    r = RuleResult(rule, "on every path where a type comparison decides to skip a cast insertion, equality of the full DataType (or "
+                   "full type meta: every field) has been established", floor=floor)
+    el = Elide(facts)
     for rec in facts.all_fns(["glaredb_core"]):
+        if only and not only(rec["id"]):
+            continue
         s = str(rec["bbs"])
         if "expr::cast" not in s and "CastExpr" not in s:
             continue
         fn = Fn(rec)
-        for c in fn.calls():
-            if not (c.name == CAST_CTORS[0] or c.name.endswith(CAST_CTORS[1]) or c.name.endswith(CAST_CTORS[2])):
-                continue
-            cmps = [(x, tr) for x, tr in controlling_calls(fn, c.bb) if x.name.endswith("::eq") or x.name.endswith("::ne")]
-            if not cmps:
-                continue
+        for c, paths in el.sites(fn):
             r.functions.add(fn.id)
             r.call_sites += 1
-            for x, truth in cmps:
-                tys = [a.lstrip("&") for a in (x.callee.get("res_args") or x.callee.get("args") or [])][:2]
-                if not any("datatype::" in t_ for t_ in tys):
-                    continue          # a comparison about something else (lengths, names)
-                differs_edge = (x.name.endswith("::ne") and truth) or (x.name.endswith("::eq") and not truth)
-                full = all(t_ in FULL_TYPES for t_ in tys)
-                ok = full and differs_edge
-                r.inst({"fn": fn.id, "line": c.line, "compares": tys[0].rsplit("::", 1)[-1] if tys else "?", "cast_on_differs_edge": differs_edge}, ok)
-                if not full:
-                    r.violate(fn.id, "cast-elision:" + (tys[0].rsplit("::", 1)[-1] if tys else "?"),
-                              f"the cast at line {c.line} is skipped when two `{tys[0].rsplit('::', 1)[-1] if tys else '?'}` values are equal; only equality "
-                              "of the full DataType guarantees the operand already has the announced type (precision/scale, unit, element type)",
-                              rec["file"], x.line)
-                elif not differs_edge:
-                    r.violate(fn.id, "cast-on-equal-edge", f"the cast at line {c.line} is built on the edge where the types are equal; the differing "
-                              "case keeps the original type", rec["file"], x.line)
+            bad = sorted({el.describe(fs) for fs, ok in paths if not ok})
+            r.inst({"fn": fn.id, "line": c.line, "skip_paths": len(paths), "all_establish_full_type_equality": not bad}, not bad)
+            for d in bad:
+                r.violate(fn.id, "cast-elision:" + d,
+                          f"the cast at line {c.line} can be skipped on a path that established {d}; only equality of the full DataType / "
+                          "full type meta guarantees the operand already has the announced type (precision and scale, unit, element type)",
+                          rec["file"], c.line)
+    for f_ in sorted(set(el.capped)):
+        r.notes.append(f"state cap reached in {f_}: paths beyond the cap not examined")
     return r
 
 
